@@ -27,6 +27,7 @@ type Clause struct {
 }
 
 type LoopSpec struct {
+	Assumed    []*Clause
 	Steps      []*Clause // two-state predicates over one iteration: old(...) is the loop head, plain names the back edge
 	Unroll     int
 	Invariants []*Clause
@@ -633,6 +634,13 @@ func (cs *ContractSet) ParseFile(path, pkgPath string) error {
 				cl := mkClause(item{it.n, "", strings.TrimSpace(tail)}, curProps)
 				if cl != nil {
 					ls.Invariants = append(ls.Invariants, cl)
+				}
+			case "assumed":
+				// assumed at the head of every iteration, not proved: listed with its text among the assumptions of every
+				// run (meant for "this counter does not wrap around within the lifetime of the process")
+				cl := mkClause(item{it.n, "", strings.TrimSpace(tail)}, curProps)
+				if cl != nil {
+					ls.Assumed = append(ls.Assumed, cl)
 				}
 			case "decreases":
 				cl := mkClause(item{it.n, "", strings.TrimSpace(tail)}, curProps)
